@@ -35,7 +35,7 @@ CHECKS = {
  'C04': {
   'level': 'model_checking',
   'explanation': 'ExplicitTreeAut::ComputeSimulation(SimParam{TA_DOWNWARD | TA_UPWARD, numStates = n}) executed symbolically on every automaton whose rules are drawn from the rule universe of the configuration (presence bit per rule, finality bit per state), built through AddTransition/SetStateFinal after renaming the states by a symbolic permutation of 0..n-1; the returned DiscontBinaryRelation is read with get(x,y) for all states x,y of the automaton and compared with the greatest downward / upward simulation computed by a naive greatest-fixpoint oracle of the definition on the un-renamed automaton (transported along the permutation); reflexivity and transitivity of the result are checked separately. The VIA_REINDEX configurations follow `vata sim` (cli/operations.hh): the automaton is built with sparse numbers, renumbered by ReindexStates with a weak translator whose counter is passed as the number of states, and the relation is read at the translated numbers. Upward: inputs restricted (vs_assume) to automata in which all n states are useful.',
-  'bounds': {'quick': 'automata over 2 states with alphabets {a/0,f/1}, {a/0,b/0,f/1}, {a/0,g/2}, and downward {f/1,g/2}, {a/0,f/1,g/2}, upward {a/0,f/1,h/1}, {a/0,b/0,g/2}; over 3 states with {a/0,f/1}; all rule subsets, all final sets, all 2 resp. 6 numberings of the states; the `vata sim` path (sparse numbers {6,1} / {7,0,3}, ReindexStates first) on 2 x {a/0,g/2} and 3 x {a/0,f/1} in both directions (9..18 free bits per query)',
+  'bounds': {'quick': 'automata over 2 states with alphabets {a/0,f/1}, {a/0,b/0,f/1}, {a/0,g/2}, and downward {f/1,g/2}, {a/0,f/1,g/2}, upward {a/0,f/1,h/1}, {a/0,b/0,g/2}; over 3 states with {a/0,f/1}; all rule subsets, all final sets, all 2 resp. 6 numberings of the states; the `vata sim` path (sparse numbers {6,1} / {7,0,3}, ReindexStates first) on 2 x {a/0,g/2} and 3 x {a/0,f/1} in both directions (9..18 free bits per query); the returned relation copied and its source variable re-used for another numbering (3 x {a/0,f/1}, both directions)',
              'thorough': 'as quick plus downward: 2 x {a/0,b/0,f/1,g/2}, 3 x {a/0,b/0,f/1}, two sub-universes of 3 x {a/0,g/2} with 9 binary rules each (all 6 numberings); upward: 2 x {a/0,f/1,g/2}, 3 x {a/0,b/0,f/1}, the same two 3-state sub-universes with a binary symbol under three concrete numberings'},
   'outside': 'more than 3 states, rank > 2, 3 states together with a binary symbol outside the listed 9-rule sub-universes (thorough tier only), alphabets that use one symbol with two different ranks (the LTS encoding inlines unary rules), numStates different from the number of states, state numbers >= numStates without the ReindexStates step of the CLI (sparse numberings of Reduce: see C05), upward simulation of automata with useless states (not claimed by the property)',
   'assumptions': ['upward: every state of the automaton is useful (vs_assume on the oracle mask usefulStates)', 'get(x,y) is only called for numbers x,y that occur in the automaton (parent, child or final); for other numbers the relation throws, which is outside the property'],
